@@ -134,7 +134,8 @@ NumColumnBits(w, vs, d) ==
          IN mn \o UintBits(d, 6) \o Cat(1)
 NumColumnD(vs) ==        \* the set of legal difference widths offered in produce form
     IF AllMissing(vs) \/ AllEqual(vs) THEN {0}
-    ELSE LET d0 == DMin(BSub(MaxPat(vs, 1, <<>>), MinPat(vs, 1, <<>>))) IN d0..(d0 + Slack)
+    ELSE LET d0 == DMin(BSub(MaxPat(vs, 1, <<>>), MinPat(vs, 1, <<>>)))
+         IN {d \in d0..(d0 + Slack) : d <= 63}      \* the width itself is a 6-bit field; a wider range cannot be compressed
 
 StrColumnBits(w, vs) ==
     IF AllMissing(vs) THEN Ones(w) \o UintBits(0, 6)
@@ -197,7 +198,7 @@ Field(t, w, forced) ==
                 ELSE LET c == ReadNumColumn(t, w, pos, t = "code") IN {[vs |-> c.vs, fb |-> <<>>, n |-> c.n, ok |-> c.ok, d |-> c.d]}
 
 Entry(lab, t, w, sc, ref, link, plain, vs) ==
-    [lab |-> lab, t |-> t, w |-> w, sc |-> sc, ref |-> ref, link |-> link, plain |-> plain, v |-> vs, d |-> -1]
+    [lab |-> lab, t |-> t, w |-> w, sc |-> sc, ref |-> ref, link |-> link, plain |-> plain, v |-> vs, d |-> -1, p |-> pos]
 
 (***************************************************************************)
 (* Control: moving to the next instruction, closing replication frames     *)
@@ -256,7 +257,7 @@ Fail(e) == /\ err' = e /\ UNCHANGED <<tid, ed, cmp, nsub, seed, sub, pc, frames,
 PutField(e, f, r, nextpc) ==
     IF ~f.ok THEN Fail("MalformedData")
     ELSE
-    /\ out' = Append(out, [e EXCEPT !.d = f.d])
+    /\ out' = Append(out, [e EXCEPT !.d = f.d, !.p = pos + f.n])
     /\ bits' = IF Mode = "produce" THEN bits \o f.fb ELSE bits
     /\ pos' = pos + f.n
     /\ reg' = r
@@ -301,7 +302,7 @@ Assoc ==
        IF r1.bmst = "ERR" THEN Fail("PyBufrKitError")
        ELSE \E f \in Field("code", AssocWidth(reg), <<>>) :
             IF ~f.ok THEN Fail("MalformedData") ELSE
-            /\ out' = Append(out, [Entry(Lab5("A", Ins.id), "code", AssocWidth(reg), 0, WZero, 0, FALSE, f.vs) EXCEPT !.d = f.d])
+            /\ out' = Append(out, [Entry(Lab5("A", Ins.id), "code", AssocWidth(reg), 0, WZero, 0, FALSE, f.vs) EXCEPT !.d = f.d, !.p = pos + f.n])
             /\ bits' = IF Mode = "produce" THEN bits \o f.fb ELSE bits
             /\ pos' = pos + f.n
             /\ reg' = r1
@@ -397,7 +398,7 @@ Delayed ==
                         body == pc + 2
                     IN IF ~f.ok THEN Fail("MalformedData")
                        ELSE IF f.vs[1].miss \/ (cmp /\ ~AllEqual(f.vs)) THEN Fail("PyBufrKitError")
-                       ELSE /\ out' = Append(out, [e EXCEPT !.d = f.d])
+                       ELSE /\ out' = Append(out, [e EXCEPT !.d = f.d, !.p = pos + f.n])
                             /\ bits' = IF Mode = "produce" THEN bits \o f.fb ELSE bits
                             /\ pos' = pos + f.n
                             /\ reg' = QaStep(r1, fid)
